@@ -718,7 +718,8 @@ fn replace_first(r: &Re, target: &Re, with: &Re, done: &mut bool) -> Re {
 
 fn parser_trees(size: usize) -> Vec<Re> {
     use refmodel::re::*;
-    let atoms = vec![ch('a'), st("ab"), set(&[('a', 'b')]), Re::Any, var("v"), builtin("ascii_digit"), Re::Eoi, set(&[('x', 'x'), ('c', 'e'), ('\'', '\''), ('0', '9'), ('-', '-')])];
+    // the variable is named like a built-in (`$lowercase` is a variable, `$$lowercase` the class); one string has a single non-ASCII character
+    let atoms = vec![ch('a'), st("ab"), set(&[('a', 'b')]), Re::Any, var("lowercase"), builtin("ascii_digit"), Re::Eoi, set(&[('x', 'x'), ('c', 'e'), ('\'', '\''), ('0', '9'), ('-', '-')]), st("é")];
     let mut memo: Vec<Vec<Re>> = vec![vec![], atoms];
     for s in 2..=size {
         let mut v = vec![];
@@ -790,7 +791,7 @@ fn parser_job(size: usize, paren_size: usize, stride: usize, viols: &mut Vec<Val
                 samples.push(json!({"tree": format!("{t:?}"), "minimal": text, "full": re::print_full(t)}));
             }
             distinct_texts.insert(text.clone());
-            match parse_regex_text(&format!("let v = 'c';\n{text} = 0,\n")) {
+            match parse_regex_text(&format!("let lowercase = 'c';\n{text} = 0,\n")) {
                 Err(e) => report(viols, "parse", t, text, format!("{how} printing rejected: {e}")),
                 Ok(items) => {
                     let got = items.iter().find(|i| i.0.is_none()).map(|i| i.1.clone());
@@ -803,7 +804,7 @@ fn parser_job(size: usize, paren_size: usize, stride: usize, viols: &mut Vec<Val
         // as right context, and as a `let` body
         if t.size() <= 3 {
             printed += 1;
-            let text = format!("let v = 'c';\nlet w = {};\n'a' > {} = 0,\n", re::print_min(t), re::print_min(t));
+            let text = format!("let lowercase = 'c';\nlet w = {};\n'a' > {} = 0,\n", re::print_min(t), re::print_min(t));
             match parse_regex_text(&text) {
                 Err(e) => report(viols, "parse", t, &text, format!("rejected: {e}")),
                 Ok(items) => {
@@ -822,7 +823,7 @@ fn parser_job(size: usize, paren_size: usize, stride: usize, viols: &mut Vec<Val
             for sub in subs.iter().skip(1) {
                 let mut done = false;
                 let with_var = replace_first(t, sub, &Re::Var("x".into()), &mut done);
-                let text = format!("let v = 'c';\nlet x = {};\n{} = 0,\n", re::print_min(sub), re::print_min(&with_var));
+                let text = format!("let lowercase = 'c';\nlet x = {};\n{} = 0,\n", re::print_min(sub), re::print_min(&with_var));
                 factored += 1;
                 match parse_regex_text(&text) {
                     Err(e) => report(viols, "let", t, &text, format!("rejected: {e}")),
@@ -833,9 +834,9 @@ fn parser_job(size: usize, paren_size: usize, stride: usize, viols: &mut Vec<Val
                         if let Some(x) = x {
                             env.insert("x".into(), x);
                         }
-                        env.insert("v".into(), Re::Char('c'));
+                        env.insert("lowercase".into(), Re::Char('c'));
                         let mut env0 = re::Env::new();
-                        env0.insert("v".into(), Re::Char('c'));
+                        env0.insert("lowercase".into(), Re::Char('c'));
                         let got = rule.map(|r| r.subst(&env));
                         if got != Some(t.subst(&env0)) {
                             report(viols, "let", t, &text, format!("after substitution: {got:?}"));
